@@ -83,6 +83,11 @@ def lean_phase(pid, tier, log):
         errs = re.findall(r"error: (Rrtk/[^\n]+)", out)
         res["failures"].append({"kind": "lake build failed", "errors": errs[:20]})
         return res
+    # snapshot modules: facts about TODAY's regenerated tables that the property does not require (e.g. which variants `to_dyn!` lists);
+    # built separately — a failure is informational drift, never a violation
+    for sm in props.PROPS.get(pid, {}).get("snapshot_modules", []):
+        rcs, outs = sh(["lake", "build", sm], cwd=LEAN, timeout=3000)
+        res.setdefault("snapshots", {})[sm] = "holds" if rcs == 0 else "no longer holds (informational: not required by the property)"
     # textual scan of the property's theorem file and everything it imports locally
     for f in lean_sources_of(os.path.join(LEAN, mod.replace(".", "/") + ".lean")):
         body = strip_lean_comments(open(f).read())
@@ -519,6 +524,7 @@ def main():
                            % (pid, pid, "; lake env leanchecker Rrtk.Thm.%s" % pid if tier == "thorough" else ""),
             "trusted_base": P["trusted_base"],
             "theorems": lean["theorems"], "axioms_per_theorem": lean["axioms"],
+            "table_snapshot_facts": lean.get("snapshots", {}),
             "partial": P.get("partial", ""),
             "evaluations": corr["evaluations"], "distinct_nontrivial": corr["distinct_nontrivial"],
             "rule": P["rule"], "samples": corr["samples"] or [{"case": lines[0] if lines else ""}],
